@@ -185,6 +185,41 @@ PROPS["C02"] = {
                          "C02_aggregate_verifies: S only"],
 }
 
+PROPS["C04"] = {
+    "lean_modules": ["MithrilModel.Properties.C04"],
+    "theorems": [
+        "C04.C04_cert_single_segment", "C04.C04_field_previous_hash", "C04.C04_field_epoch", "C04.C04_field_signed_message",
+        "C04.C04_field_avk", "C04.C04_field_signature", "C04.C04_field_ancillary_prover", "C04.C04_field_ancillary_verifier",
+        "C04.C04_field_metadata", "C04.C04_meta_single_segment", "C04.C04_meta_network", "C04.C04_meta_version",
+        "C04.C04_meta_initiated_at", "C04.C04_meta_sealed_at", "C04.C04_params", "C04.C04_meta_params", "C04.C04_party",
+        "C04.C04_entity_collision", "C04.C04_entity_collision_cert", "C04.C04_entity_partial_msd", "C04.C04_entity_partial_cdb",
+        "C04.C04_pm_single_value", "CertModel.segs_single", "CertModel.hexOf_inj",
+    ],
+    "level_text": "Tamper evidence is proved field by field in Lean for the byte-exact model of the certificate hash pre-image (and the nested "
+                  "metadata, parameter, party and protocol-message pre-images): two certificates that differ in one field have different hashes "
+                  "or exhibit a SHA-256 collision, protocol parameters at U8F24 precision. The model's pre-image is hashed with a Lean SHA-256 "
+                  "and compared bit for bit with try_compute_hash / compute_hash on random certificates of both kinds and every entity type; "
+                  "the single-field sweep and the message/JSON round trip (shuffled field order, whitespace) are run on the real code. The "
+                  "signed-entity variant collision is a proved counter-example and a known finding.",
+    "level_note": "SHA-256 is a parameter of the theorems (collision disjunct); serde_json, chrono, the key/signature JSON-hex codecs and "
+                  "fixed::U8F24 are exercised by K/S, not modelled beyond the U8F24 rounding. Digest injectivity for protocol messages whose "
+                  "key SET differs (C04_pm_digest_injective) is not proved; the same-keys single-value case is.",
+    "harness": [("harness", "c04")],
+    "anchors": ["mithril-common/src/entities/certificate.rs", "mithril-common/src/entities/certificate_metadata.rs",
+                "mithril-common/src/entities/protocol_message.rs", "mithril-common/src/entities/protocol_parameters.rs",
+                "mithril-common/src/entities/signed_entity_type.rs", "mithril-common/src/messages/certificate.rs",
+                "mithril-common/src/crypto_helper/types/protocol_key.rs"],
+    "rule": "random certificates (genesis and standard, the five entity types, empty/long/non-ASCII strings, 0-40 signers, timestamps at "
+            "the i64 limits and with nanoseconds, u64 extremes, phi_f incl. 0, 1 and next to 256) + for each the single-field sweep "
+            "(16 fields) and the JSON re-serialisation; all cases non-trivial; distinct request lines",
+    "trivial_tags": [],
+    "trusted_base": ["rustc/cargo; harness bin c04; serde_json; chrono"],
+    "assumptions": ["default features: ancillary prover/verifier data are uninhabited (future_snark off), so those two segments are empty"],
+    "goals_not_proved": ["C04_pm_digest_injective across different key sets (unique parsing of key/value concatenation): not proved",
+                         "C04_roundtrip (ofMessage (toMessage c) = c): S on the real code only",
+                         "full single-field statement for the signed-entity VARIANT is FALSE (C04_entity_collision_cert): known finding C04-entity-variant"],
+}
+
 
 # property configurations contributed as separate files: props.d/Cxx.py defines `CONFIG = {...}`
 import glob as _glob, os as _os, importlib.util as _ilu
